@@ -486,6 +486,24 @@ func TestC03_HelperMatrix(t *testing.T) {
 	c03.rec.Class("helper matrix")
 }
 
+// TestC03_DeepRelay: every relay depth 1..100 around inner messages carrying the options the printers and
+// helpers special-case (embedded DHCPv4 message, vendor class + enterprise client id, IA with addresses and a
+// compressed search list, vendor options + EUI-64 link-layer address), with and without per-level options.
+func TestC03_DeepRelay(t *testing.T) {
+	for _, inner := range deepInners() {
+		for _, d := range deepDepths() {
+			for _, opts := range []bool{false, true} {
+				b := deepRelay(d, inner, opts)
+				if len(b) > 4096 {
+					continue
+				}
+				c03.one(t, c03Case{Entry: "v6", B: b})
+			}
+		}
+	}
+	c03.rec.Class("deep relay enumeration")
+}
+
 func FuzzC03_V6(f *testing.F) {
 	f.Add([]byte{1, 0xaa, 0xbb, 0xcc, 0, 8, 0, 2, 0, 0})
 	f.Add([]byte{12, 0, 0, 0, 0, 0, 0, 0, 0, 0, 0, 0, 0, 0, 0, 0, 0, 0, 0, 0, 0, 0, 0, 0, 0, 0, 0, 0, 0, 0, 0, 0, 0, 0, 0, 9, 0, 4, 1, 0, 0, 0})
